@@ -236,3 +236,138 @@ fn camel_case(name: &str) -> Vec<u8> {
     }
     out
 }
+
+// ------------------------------------------------------------------ h1 head phase (decoder.rs)
+
+/// run-length pieces for the Coq case: `[Lit (hx ".."); Rep n b; ..]`
+pub fn coq_pieces(b: &[u8]) -> String {
+    let mut parts: Vec<String> = vec![];
+    let mut lit: Vec<u8> = vec![];
+    let mut i = 0;
+    while i < b.len() {
+        let mut j = i;
+        while j < b.len() && b[j] == b[i] {
+            j += 1;
+        }
+        if j - i >= 24 {
+            if !lit.is_empty() {
+                parts.push(format!("Lit {}", coq_bytes(&lit)));
+                lit.clear();
+            }
+            parts.push(format!("Rep {} {}", j - i, b[i]));
+            i = j;
+        } else {
+            lit.push(b[i]);
+            i += 1;
+        }
+    }
+    if !lit.is_empty() {
+        parts.push(format!("Lit {}", coq_bytes(&lit)));
+    }
+    format!("[{}]", parts.join("; "))
+}
+
+fn off(buf: &[u8], s: &[u8]) -> usize {
+    // the pointer arithmetic of HeaderIndex::record
+    s.as_ptr() as usize - buf.as_ptr() as usize
+}
+
+fn perr_class(e: &actix_http::error::ParseError) -> &'static str {
+    use actix_http::error::ParseError as P;
+    match e {
+        P::Method => "emethod",
+        P::Uri(_) => "euri",
+        P::Status => "estatus",
+        P::Header => "eheader",
+        P::TooLarge => "toolarge",
+        _ => "eother",
+    }
+}
+
+/// returns (Gallina case, implementation result, oracle verdict). `resp`: response head through
+/// `h1::ClientCodec::decode`, else request head through `h1::Codec::decode`.
+pub fn run_head(resp: bool, buf: &[u8]) -> (String, V, Result<(), String>) {
+    use actix_codec::Decoder;
+    const MAXH: usize = 96;
+    let mut hs = [httparse::EMPTY_HEADER; MAXH];
+    // what httparse says (same crate, same configuration as decoder.rs)
+    let mut longest_name = 0usize;
+    let (hp_coq, hp_err, extra): (String, bool, String) = if resp {
+        let mut r = httparse::Response::new(&mut hs);
+        let mut cfg = httparse::ParserConfig::default();
+        cfg.allow_spaces_after_header_name_in_responses(true);
+        match cfg.parse_response(&mut r, buf) {
+            Err(_) => ("HPe".into(), true, "0".into()),
+            Ok(httparse::Status::Partial) => ("HPp".into(), false, "0".into()),
+            Ok(httparse::Status::Complete(len)) => {
+                let q: Vec<String> = r
+                    .headers
+                    .iter()
+                    .map(|h| {
+                        longest_name = longest_name.max(h.name.len());
+                        format!("({}, {}, {}, {})", off(buf, h.name.as_bytes()), h.name.len(), off(buf, h.value), h.value.len())
+                    })
+                    .collect();
+                (format!("(HPc {} {} [{}])", len, r.version.unwrap_or(9), q.join("; ")), false, format!("{}", r.code.unwrap_or(0)))
+            }
+        }
+    } else {
+        let mut r = httparse::Request::new(&mut hs);
+        match r.parse(buf) {
+            Err(_) => ("HPe".into(), true, "false false false false".into()),
+            Ok(httparse::Status::Partial) => ("HPp".into(), false, "false false false false".into()),
+            Ok(httparse::Status::Complete(len)) => {
+                let q: Vec<String> = r
+                    .headers
+                    .iter()
+                    .map(|h| {
+                        longest_name = longest_name.max(h.name.len());
+                        format!("({}, {}, {}, {})", off(buf, h.name.as_bytes()), h.name.len(), off(buf, h.value), h.value.len())
+                    })
+                    .collect();
+                let m = r.method.unwrap_or("");
+                let method_ok = actix_web::http::Method::from_bytes(m.as_bytes()).is_ok();
+                let uri_ok = http::Uri::try_from(r.path.unwrap_or("")).is_ok();
+                (
+                    format!("(HPc {} {} [{}])", len, r.version.unwrap_or(9), q.join("; ")),
+                    false,
+                    format!("{} {} {} {}", coq_bool(method_ok), coq_bool(uri_ok), coq_bool(m == "POST"), coq_bool(m == "CONNECT")),
+                )
+            }
+        }
+    };
+    let coq = format!("{} {} {} {}", if resp { "KHeadResp" } else { "KHeadReq" }, coq_pieces(buf), hp_coq, extra);
+    // the implementation
+    let (class, ok): (V, bool) = vh::exec::run_local(async {
+        let mut src = BytesMut::from(buf);
+        let kind = |t: h1::MessageType| match t {
+            h1::MessageType::None => 0u32,
+            h1::MessageType::Payload => 1,
+            h1::MessageType::Stream => 2,
+        };
+        if resp {
+            let mut c = h1::ClientCodec::default();
+            match c.decode(&mut src) {
+                Ok(None) => (V::t0("none"), false),
+                Ok(Some(head)) => (V::T("ok", vec![V::us(head.headers().len()), V::n(kind(c.message_type()))]), true),
+                Err(e) => (V::t0(if hp_err { "perr" } else { perr_class(&e) }), false),
+            }
+        } else {
+            let mut c = h1::Codec::default();
+            match c.decode(&mut src) {
+                Ok(None) => (V::t0("none"), false),
+                Ok(Some(h1::Message::Item(req))) => (V::T("ok", vec![V::us(req.head().headers.len()), V::n(kind(c.message_type()))]), true),
+                Ok(Some(h1::Message::Chunk(_))) => (V::t0("chunk"), false),
+                Err(e) => (V::t0(if hp_err { "perr" } else { perr_class(&e) }), false),
+            }
+        }
+    });
+    // independent oracle: F27's statement — a field name longer than 65535 bytes is an error
+    let verdict = if ok && longest_name > 65535 {
+        Err(format!("a header name of {longest_name} bytes was accepted"))
+    } else {
+        Ok(())
+    };
+    // the implementation side always claims httparse's contract (first component 1)
+    (coq, V::T("head", vec![V::b(true), class]), verdict)
+}
